@@ -8,6 +8,8 @@
 //!   <id> fsread <kind> <loc 0|1> <file-hex> <n> {…}*   the same file written into a layer directory and read through
 //!        `LayeredFilesystem::read_{ctpk,bch,cgfx}_textures` (map keyed by name) / `read_tpl_textures`;
 //!        implementation line: `ok <n> {<key-hex> <name-hex> <w> <h> <pixels-hex>}*` sorted by key (TPL: by index)
+//!   <id> fsreadz <kind> <loc> <game> <ext> <stored-hex> <file-hex> <n> {…}*   the container stored compressed
+//!        (`stored` = LZ10 / LZ13 stream of `file`, put on disk as it is) and read through the same typed readers
 //! Implementation lines:
 //!   <id> <dev|release> ok <n> {<name-hex> <w> <h> <pixels-hex>}*  |  … err <Class>  |  … panic
 //!   <id> <dev|release> <a>-<b>:<class>,…      run-length list over the cut positions; class =
@@ -789,6 +791,88 @@ pub fn gen(seed: u64, tier: &str) -> Vec<String> {
             }
         }
     }
+    // 1f. containers stored COMPRESSED in the layer (`.lz` = LZ13 on FE13/14/15, `.cmp` / `.cms` = LZ10 on
+    //     FE9/FE10) and read through the typed readers.  A good share end in repeated content (the last
+    //     texture a copy of an earlier one, flat / zero payloads, 3..16 trailing zero bytes) so that the
+    //     compressed stream ends in a short back-reference.
+    {
+        let combos: [(&str, &str); 6] = [("FE13", ".lz"), ("FE9", ".cmp"), ("FE14", ".lz"), ("FE10", ".cms"), ("FE15", ".lz"), ("FE9", ".cms")];
+        let compress = |game: &str, bytes: &[u8]| -> Vec<u8> {
+            if game == "FE9" || game == "FE10" {
+                LZ10CompressionFormat {}.compress(bytes).unwrap_or_default()
+            } else {
+                LZ13CompressionFormat {}.compress(bytes).unwrap_or_default()
+            }
+        };
+        let rounds = if thorough { 12 } else { 2 };
+        let mut c = 0usize;
+        for round in 0..rounds {
+            for kind in KINDS.iter() {
+                for tail in 0..4 {
+                    if !thorough && (round + tail) % 2 == 1 && *kind != "ctpk" {
+                        continue;
+                    }
+                    let n = rng.range(1, 3) as usize;
+                    let mut texs: Vec<Tex> = (0..n).map(|_| if *kind == "tpl" { gen_tex_tpl(&mut rng, false) } else { gen_tex_3ds(&mut rng, *kind == "ctpk", false) }).collect();
+                    match tail {
+                        0 => {
+                            // the last texture repeats an earlier one (same payload, same palette)
+                            let mut t = texs[0].clone();
+                            if *kind != "tpl" {
+                                t.name = format!("{}2", t.name);
+                            }
+                            texs.push(t);
+                        }
+                        1 => {
+                            // flat last texture
+                            let last = texs.len() - 1;
+                            let v = *rng.pick(&[0u8, 0xFF, 0x11]);
+                            if *kind == "tpl" {
+                                for b in texs[last].payload.iter_mut() {
+                                    *b = 0;
+                                }
+                                for b in texs[last].palette.iter_mut() {
+                                    *b = v;
+                                }
+                            } else {
+                                for b in texs[last].payload.iter_mut() {
+                                    *b = v;
+                                }
+                            }
+                        }
+                        _ => {}
+                    }
+                    let shuffle = tail == 3;
+                    let mut b = build(kind, &texs, 0, &mut rng, shuffle);
+                    if tail == 2 {
+                        // trailing zero bytes after the last defined byte
+                        let k = rng.range(3, 16) as usize;
+                        b.file.extend(std::iter::repeat(0u8).take(k));
+                    }
+                    let (game, ext) = combos[c % combos.len()];
+                    c += 1;
+                    let stored = compress(game, &b.file);
+                    let f = tex_fields(&texs, &b);
+                    next(&mut lines, format!("fsreadz {} {} {} {} {} {} {}", kind, c % 2, game, ext, hex(&stored), hex(&b.file), f));
+                    if tail == 0 && round == 0 {
+                        // no claim: the stream cut by one byte, padded with zero bytes (as Nintendo's tools do),
+                        // and a compressed suffix the game does not know (read raw)
+                        let i0 = id.get();
+                        lines.push(format!("c20.{:06} fsreadz {} 0 {} {} {} {} ~", i0, kind, game, ext, hex(&stored[..stored.len() - 1]), hex(&b.file)));
+                        let mut padded = stored.clone();
+                        while padded.len() % 4 != 0 || padded.len() == stored.len() {
+                            padded.push(0);
+                        }
+                        lines.push(format!("c20.{:06} fsreadz {} 1 {} {} {} {} ~", i0, kind, game, ext, hex(&padded), hex(&b.file)));
+                        let other_ext = if ext == ".lz" { ".cmp" } else { ".lz" };
+                        lines.push(format!("c20.{:06} fsreadz {} 0 {} {} {} {} ~", i0, kind, game, other_ext, hex(&stored), hex(&b.file)));
+                        lines.push(format!("c20.{:06} fsreadz {} 0 {} {} {} {} {}", i0, kind, game, ext, hex(&stored), hex(&b.file), f));
+                        id.set(i0 + 1);
+                    }
+                }
+            }
+        }
+    }
     // 2. BCH compatibility byte on both sides of the threshold (N2), one texture each
     for &compat in COMPATS.iter() {
         let texs = vec![gen_tex_3ds(&mut rng, false, false)];
@@ -1058,7 +1142,12 @@ pub fn run_line(_st: &mut super::State, line: &str) -> String {
             let kind = f[2];
             let localized = f[3] == "1";
             let file = unhex(f[4]);
-            format!("{} {} {}", id, PROFILE, fs_outcome(kind, localized, &file))
+            format!("{} {} {}", id, PROFILE, fs_outcome(kind, localized, "FE13", "", &file))
+        }
+        "fsreadz" => {
+            // <kind> <loc> <game> <ext> <stored-hex> <file-hex> …: the stored (compressed) bytes are put on disk as they are
+            let stored = unhex(f[6]);
+            format!("{} {} {}", id, PROFILE, fs_outcome(f[2], f[3] == "1", f[4], f[5], &stored))
         }
         _ => format!("{} {} bad-case", id, PROFILE),
     }
@@ -1066,7 +1155,18 @@ pub fn run_line(_st: &mut super::State, line: &str) -> String {
 
 /// Writes `file` into a fresh layer directory under `work/` and reads it back through the
 /// `LayeredFilesystem` texture entry points.
-fn fs_outcome(kind: &str, localized: bool, file: &[u8]) -> String {
+fn game_of(name: &str) -> Game {
+    match name {
+        "FE9" => Game::FE9,
+        "FE10" => Game::FE10,
+        "FE14" => Game::FE14,
+        "FE15" => Game::FE15,
+        _ => Game::FE13,
+    }
+}
+
+/// `stored` = the bytes on disk (a compressed stream when `ext` is a compressed suffix of the game).
+fn fs_outcome(kind: &str, localized: bool, game: &str, ext: &str, stored: &[u8]) -> String {
     let dir = std::path::PathBuf::from(format!("work/texc-fs-{}", std::process::id()));
     let _ = std::fs::remove_dir_all(&dir);
     if std::fs::create_dir_all(dir.join("d").join("E")).is_err() {
@@ -1074,19 +1174,31 @@ fn fs_outcome(kind: &str, localized: bool, file: &[u8]) -> String {
     }
     let out = (|| {
         let layer = dir.to_string_lossy().to_string();
-        let fs = match LayeredFilesystem::new(vec![layer], Language::EnglishNA, Game::FE13) {
+        let fs = match LayeredFilesystem::new(vec![layer], Language::EnglishNA, game_of(game)) {
             Ok(fs) => fs,
             Err(_) => return "fs-setup-failed".to_string(),
         };
-        if fs.write("d/tex.bin", file, localized).is_err() {
+        let path_string = format!("d/tex.bin{}", ext);
+        let path = path_string.as_str();
+        // let the library place the file (localisation, directories), then put the stored bytes there raw
+        if fs.write(path, &[1, 2, 3, 4], localized).is_err() {
             return "fs-setup-failed".to_string();
+        }
+        match fs.resolve(path, localized) {
+            Some(p) => {
+                if std::fs::write(&p, stored).is_err() {
+                    return "fs-setup-failed".to_string();
+                }
+            }
+            None => return "fs-setup-failed".to_string(),
         }
         let class = |e: &LayeredFilesystemError| match e {
             LayeredFilesystemError::TextureParseError(e) => parse_err_class(e),
+            LayeredFilesystemError::CompressionError(_) => "Invalid",
             _ => "Other",
         };
         if kind == "tpl" {
-            match no_panic(|| fs.read_tpl_textures("d/tex.bin", localized)) {
+            match no_panic(|| fs.read_tpl_textures(path, localized)) {
                 Err(_) => "panic".to_string(),
                 Ok(Err(e)) => format!("err {}", class(&e)),
                 Ok(Ok(ts)) => {
@@ -1099,9 +1211,9 @@ fn fs_outcome(kind: &str, localized: bool, file: &[u8]) -> String {
             }
         } else {
             let r = no_panic(|| match kind {
-                "ctpk" => fs.read_ctpk_textures("d/tex.bin", localized),
-                "bch" => fs.read_bch_textures("d/tex.bin", localized),
-                _ => fs.read_cgfx_textures("d/tex.bin", localized),
+                "ctpk" => fs.read_ctpk_textures(path, localized),
+                "bch" => fs.read_bch_textures(path, localized),
+                _ => fs.read_cgfx_textures(path, localized),
             });
             match r {
                 Err(_) => "panic".to_string(),
